@@ -379,3 +379,64 @@ Proof.
     assert (n <> R) by (intros Hc; rewrite <- Hc in A3; contradiction). lia.
   - split; [destruct HV as [-> | ->]; lia | exact D].
 Qed.
+
+(* ------------------------------------------------------------ h2v2 downsampling *)
+Lemma h2v2_ds_loop_spec in0 in1 m : forall k,
+  h2v2_ds_loop (skipn (2 * k) in0) (skipn (2 * k) in1) (1 + Z.of_nat (k mod 2)) m
+  = map (fun g => (rd in0 (2 * g) + rd in0 (2 * g + 1) + rd in1 (2 * g) + rd in1 (2 * g + 1) + (1 + Z.of_nat (g mod 2))) / 4) (seq k m).
+Proof.
+  induction m as [|m IH]; intros k; [reflexivity|]. cbn [h2v2_ds_loop seq map].
+  rewrite !rd_skipn. rewrite !skipn_add. replace (2 * k + 2)%nat with (2 * S k)%nat by lia.
+  replace (Z.lxor (1 + Z.of_nat (k mod 2)) 3) with (1 + Z.of_nat (S k mod 2)).
+  - rewrite IH. rewrite Nat.add_0_r. reflexivity.
+  - pose proof (Nat.mod_upper_bound k 2 ltac:(lia)).
+    assert (E : (S k mod 2 = 1 - k mod 2)%nat).
+    { rewrite <- Nat.add_1_r. rewrite Nat.add_mod by lia. destruct (k mod 2)%nat as [|[|]]; cbn; lia. }
+    rewrite E. destruct (k mod 2)%nat as [|[|]]; try lia; reflexivity.
+Qed.
+
+Lemma ds2_lane_exact a0 a1 b0 b1 bias : isbyte a0 -> isbyte a1 -> isbyte b0 -> isbyte b1 -> 0 <= bias <= 2 ->
+  ds2_lane a0 a1 b0 b1 bias = (a0 + a1 + b0 + b1 + bias) / 4.
+Proof.
+  unfold isbyte, ds2_lane, wrap16, sat_ub. intros H0 H1 H2 H3 Hc.
+  rewrite (Z.mod_small (a0 + a1)) by lia. rewrite (Z.mod_small (b0 + b1)) by lia.
+  rewrite (Z.mod_small (a0 + a1 + (b0 + b1))) by lia. rewrite (Z.mod_small (a0 + a1 + (b0 + b1) + bias)) by lia.
+  replace (a0 + a1 + (b0 + b1) + bias) with (a0 + a1 + b0 + b1 + bias) by lia.
+  destruct (32768 <=? (a0 + a1 + b0 + b1 + bias) / 4) eqn:E; lia.
+Qed.
+
+Theorem h2v2_downsample_simd_eq_c V row0 row1 iw oc :
+  (0 < V)%nat -> (V mod 2 = 0)%nat -> bytes row0 -> bytes row1 ->
+  firstn oc (h2v2_downsample_simd V row0 row1 iw oc) = h2v2_downsample_c row0 row1 iw oc /\
+  length (h2v2_downsample_simd V row0 row1 iw oc) = round_up_nat oc V /\
+  (forall j, (oc <= j)%nat -> rd (h2v2_downsample_simd V row0 row1 iw oc) j = 0).
+Proof.
+  intros HV HE Hb0 Hb1. unfold h2v2_downsample_simd, h2v2_downsample_c.
+  set (in0 := expand_right_edge row0 iw (2 * oc)). set (in1 := expand_right_edge row1 iw (2 * oc)).
+  assert (Hi0 : bytes in0) by (apply expand_bytes; exact Hb0).
+  assert (Hi1 : bytes in1) by (apply expand_bytes; exact Hb1).
+  destruct (round_up_nat_spec oc V HV) as (R1 & R2 & R3).
+  set (F := fun (g i : nat) => ds2_lane (ld_zfill in0 (2 * oc) (2 * g)) (ld_zfill in0 (2 * oc) (2 * g + 1))
+                                        (ld_zfill in1 (2 * oc) (2 * g)) (ld_zfill in1 (2 * oc) (2 * g + 1)) (1 + Z.of_nat (i mod 2))).
+  assert (E : flat_map (fun c => map (fun i => F (c * V + i)%nat i) (seq 0 V)) (seq 0 (round_up_nat oc V / V))
+              = map (fun g => F g (g mod V)%nat) (seq 0 (round_up_nat oc V))).
+  { rewrite (map_as_flat_map (fun g => F g (g mod V)%nat)). rewrite <- R2 at 2.
+    rewrite <- (flat_map_chunks (fun g i => [F g i]) V _ HV).
+    apply flat_map_ext_in'. intros c _. apply map_as_flat_map. }
+  unfold F in E. rewrite E. clear E. split; [|split].
+  - rewrite firstn_map. rewrite firstn_seq' by lia.
+    pose proof (h2v2_ds_loop_spec in0 in1 oc 0) as S. change (skipn (2 * 0) in0) with in0 in S. change (skipn (2 * 0) in1) with in1 in S.
+    change (1 + Z.of_nat (0 mod 2)) with 1 in S. rewrite S.
+    apply map_ext_in. intros g Hg. apply in_seq in Hg.
+    unfold ld_zfill. replace (2 * g <? 2 * oc)%nat with true by lia. replace (2 * g + 1 <? 2 * oc)%nat with true by lia.
+    rewrite mod2_of_modV by assumption.
+    apply ds2_lane_exact; try apply rd_byte; try assumption.
+    pose proof (Nat.mod_upper_bound g 2 ltac:(lia)). lia.
+  - rewrite map_length, seq_length. reflexivity.
+  - intros j Hj. unfold rd. destruct (Nat.lt_ge_cases j (round_up_nat oc V)) as [Hlt | Hge].
+    + rewrite nth_map_seq by exact Hlt.
+      unfold ld_zfill. replace (2 * j <? 2 * oc)%nat with false by lia. replace (2 * j + 1 <? 2 * oc)%nat with false by lia.
+      pose proof (Nat.mod_upper_bound (j mod V) 2 ltac:(lia)).
+      unfold ds2_lane, wrap16, sat_ub. destruct ((j mod V) mod 2)%nat as [|[|]]; try lia; reflexivity.
+    + apply nth_overflow. rewrite map_length, seq_length. exact Hge.
+Qed.
